@@ -95,6 +95,9 @@ def jobs(tier, seed):
     for stage in FTP_E2E_STAGES:
         for scen in FTP_E2E_SCENARIOS:
             js.append(dict(kind='ftp-e2e', stage=stage, scenario=scen, occ=occ))
+    names = sorted(site_e2e_cases())
+    for i in range(0, len(names), 6):
+        js.append(dict(kind='site-e2e', names=names[i:i + 6]))
     js.append(dict(kind='longline'))
     js.append(dict(kind='charset'))
     for i in range(0, len(HEADER_VALUES), 6):
@@ -415,6 +418,17 @@ def run_job(job):
                                 value=value, occ=k))
         res['samples'].append(dict(surface='ftp end-to-end', scenario=job['scenario'],
                                    stage=job['stage'], cases=n))
+    elif kind == 'site-e2e':
+        for name in job['names']:
+            v = run_site_e2e(name)
+            res['evaluations'] += 1
+            tally(v)
+            res['distinct'].add(h64(('site-e2e', name)))
+            if v:
+                record(res, seen, 'site-e2e/' + name.split(':')[0], name, v,
+                       dict(kind='site-e2e', name=name))
+        res['samples'].append(dict(surface='whole crawls with one hostile document',
+                                   cases=job['names']))
     elif kind == 'header-e2e':
         for name, value in HEADER_VALUES[job['idx'][0]:job['idx'][1]]:
             v = run_header_e2e(name, value)
@@ -729,6 +743,117 @@ def run_bad_cert():
     return None
 
 
+# whole crawls in which one document (robots.txt, a sitemap, a page) is hostile in a way that
+# only matters downstream of the parser: in the redirect follower, the URL table, the file
+# writer or the link converter
+ROBOTS_REDIRECTS = ['mailto:webmaster@a.test', 'data:,x', 'about:blank', 'javascript:1',
+                    'file:///etc/passwd', 'x:', 'ftp://a.test/robots.txt', 'gopher://a.test/',
+                    'http://', 'http://[::1', '//', 'http://a.test:99999/', '\x00',
+                    'http://\xff\xfe.test/', 'ws://a.test/', '#', '?']
+SITEMAP_BODIES = ['\x1f\x8b\x08\x00', '\x1f\x8b' + 'X' * 40, '\x1f\x8b\x08\x00\x00\x00\x00\x00\x00\x03' + 'garbage' * 5,
+                  '@GZ-BADCRC@', '@GZ-TRUNC@', '@GZ-TRAIL@', '<?xml version="1.0"?><urlset><url><loc>http://[::1</loc></url></urlset>',
+                  '<?xml', '\xff\xfe<\x00u\x00r\x00l\x00s\x00e\x00t\x00']
+HOSTILE_PAGES = {
+    'object-codebase': '<html><object codebase="data" data="zzz"></object>'
+                       '<object codebase="/cb/" data="x.bin" classid="c.class" archive="a.jar b.jar">'
+                       '</object><applet codebase="archive" archive="qq" code="code"></applet>'
+                       '<a href="/sibling">s</a></html>',
+    'js-surrogate': '<html><script>var u = "mailto:\\ud800/"; var v = "http://a.test/\\udfff";'
+                    ' var w = "x:\\ud800";</script><a href="/sibling">s</a>'
+                    '<a href="mailto:&#xD800;">m</a></html>',
+    'long-path': '<html><a href="/%s/f.txt">l</a><a href="/%s">n</a><a href="/sibling">s</a></html>'
+                 % ('/'.join(['d' * 120] * 40), 'n' * 5000),
+    'bad-hrefs': '<html><a href="http://[::1">a</a><a href="http://a:b/">b</a>'
+                 '<a href="/sibling">s</a><img src="http://[bad"><a href="//">c</a>'
+                 '<link rel="stylesheet" href="http://%zz"></html>',
+}
+
+
+def _gz(data):
+    import gzip, io
+    b = io.BytesIO()
+    with gzip.GzipFile(fileobj=b, mode='wb', mtime=0) as f:
+        f.write(data)
+    return b.getvalue()
+
+
+def site_e2e_cases():
+    cases = {}
+    for i, loc in enumerate(ROBOTS_REDIRECTS):
+        for st in (301, 302, 307):
+            cases['robots-redirect:%d:%d' % (st, i)] = None
+    for i in range(len(SITEMAP_BODIES)):
+        cases['sitemap-body:%d' % i] = None
+        cases['sitemap-robots-body:%d' % i] = None
+    for k in HOSTILE_PAGES:
+        for mode in ('delete', 'files', 'convert'):
+            cases['page:%s:%s' % (k, mode)] = None
+    return cases
+
+
+def run_site_e2e(name):
+    from vt.appharn import AppRun
+    parts = name.split(':')
+    pages = {'/': {'links': ['/hostile', '/sibling']}, '/sibling': {'links': ['/deep']},
+             '/deep': {'links': []}, '/hostile': {'links': []}}
+    argv = ['http://a.test/', '-r', '--waitretry', '0', '--tries', '2']
+    must = ['/', '/sibling', '/deep']
+    if parts[0] == 'robots-redirect':
+        loc = ROBOTS_REDIRECTS[int(parts[2])]
+        pages['/robots.txt'] = {'raw': 'HTTP/1.1 %s Moved\r\nLocation: %s\r\n'
+                                       'Content-Length: 0\r\n\r\n' % (parts[1], loc)}
+        argv += ['--delete-after']
+        if loc.startswith('http://\xff'):
+            # a host that does not resolve: robots.txt is unavailable because of a network
+            # error, for which wpull (by design) fails the URL instead of assuming "allowed"
+            must = []
+    elif parts[0] in ('sitemap-body', 'sitemap-robots-body'):
+        body = SITEMAP_BODIES[int(parts[1])]
+        xml = (b'<?xml version="1.0"?><urlset xmlns="http://www.sitemaps.org/schemas/sitemap/'
+               b'0.9">' + b'<url><loc>http://a.test/sibling</loc></url>' * 200 + b'</urlset>')
+        if body == '@GZ-BADCRC@':
+            g = _gz(xml)
+            body = (g[:-8] + b'\x00\x00\x00\x00' + g[-4:]).decode('latin-1')
+        elif body == '@GZ-TRUNC@':
+            body = _gz(xml)[:-20].decode('latin-1')
+        elif body == '@GZ-TRAIL@':
+            body = (_gz(xml) + b'trailing junk').decode('latin-1')
+        raw = ('HTTP/1.1 200 OK\r\nContent-Type: application/xml\r\nContent-Length: %d\r\n\r\n'
+               % len(body)) + body
+        if parts[0] == 'sitemap-body':
+            pages['/sitemap.xml'] = {'raw': raw}
+            pages['/robots.txt'] = {'body': 'User-agent: *\nDisallow:\n', 'ctype': 'text/plain'}
+        else:
+            pages['/robots.txt'] = {'raw': raw}
+        argv += ['--sitemaps', '--delete-after']
+    else:
+        pages['/hostile'] = {'body': HOSTILE_PAGES[parts[1]], 'ctype': 'text/html'}
+        argv += ['--no-robots', '-p']
+        if parts[2] == 'delete':
+            argv += ['--delete-after']
+        elif parts[2] == 'convert':
+            argv += ['-k']
+    site = {'hosts': {'a.test': pages}}
+    out = AppRun(site, argv, Chooser(), early=False).run()
+    if out['result'] != 'ok':
+        return 'crawl does not terminate: %s' % out['result']
+    if out['exc']:
+        return 'application raised %s' % out['exc'][:90]
+    if out['exit'] == 1:
+        return 'exit status 1 (generic error / crash)'
+    if out['loop_errors']:
+        return 'unretrieved exception %r' % (out['loop_errors'][:1],)
+    got = {q['target'] for q in out['requests']}
+    for want in must:
+        if want not in got:
+            return '%s was not fetched: the crawl ended early (exit status %s)' % (
+                want, out['exit'])
+    for u, r in sorted((out['rows'] or {}).items()):
+        if r['status'] not in ('done', 'error', 'skipped'):
+            return 'crawl ended with %s left %s' % (u[:60], r['status'])
+    return None
+
+
 def run_e2e(name):
     from vt.appharn import AppRun
     if name == 'cookie-flood':
@@ -773,6 +898,8 @@ def replay(rec):
         v = run_ftp_e2e(rec['scenario'], rec['stage'], rec['value'], rec['occ'])
     elif k == 'doc':
         v = run_doc_case(rec['doc'], rec['data'].encode('latin-1'), rec['variant'])
+    elif k == 'site-e2e':
+        v = run_site_e2e(rec['name'])
     else:
         v = run_e2e(rec['name'])
     return (rec['violation'] if v else None), (rec['signature'] if v else None), v
